@@ -51,8 +51,10 @@ tvars == <<vars, tid, l, gs>>
 Tr == Traces[tid]
 N  == IF Tr.kind = "parse" THEN Len(Tr.lines) ELSE Len(Tr.ops)
 
+\* (unlike the model's TextLine every line keeps its interned text as id: a header or trailer line
+\*  that is stored verbatim -- as junk inside a block, after slurp -- is observed as its text)
 TraceLine(e) == [c  |-> e.c,
-                 id |-> IF e.c \in TopClasses \cup EndDetailed THEN 0 ELSE e.v,
+                 id |-> e.v,
                  h  |-> IF e.c \in TopClasses \cup EndDetailed THEN e.h ELSE <<>>]
 TraceText(ls) == [i \in 1..Len(ls) |-> TraceLine(ls[i])]
 
